@@ -194,7 +194,7 @@ M("c03-new-raw-result", ["C03", "C11"], VM,
 
 # ------------------------------------------------------------------ C04 / C14
 M("c04-native-raises-valueerror", ["C04"], VM,
-  "            if count < 0:\n                raise JSRangeError(\"Invalid count value\")", "            if count < 0:\n                raise ValueError(\"Invalid count value\")",
+  "            if count < 0 or count >= 2**53:\n                raise JSRangeError(\"Invalid count value\")", "            if count < 0 or count >= 2**53:\n                raise ValueError(\"Invalid count value\")",
   [("C04", "C04-R1", "repeat")])
 M("c04-to-int32-unguarded", ["C04"], VM,
   "        n = to_number(value)\n        if math.isnan(n) or math.isinf(n) or n == 0:\n            return 0\n        n = int(n)\n        n = n & 0xFFFFFFFF\n        if n >= 0x80000000:",
@@ -275,11 +275,11 @@ M("c10-star-no-advance-guard", ["C10"], RC,
 
 # ------------------------------------------------------------------ C11 / C12 / C15
 M("c11-to-python-aliases-elements", ["C11"], CX,
-  "            return [self._to_python(elem) for elem in value._elements]", "            return value._elements",
+  "                return [self._to_python(elem, path) for elem in value._elements]", "                return value._elements",
   [("C11", "C11-R1", "_to_python")])
-M("c11-to-python-object-before-array", ["C11"], CX,
-  "        if isinstance(value, JSArray):\n            return [self._to_python(elem) for elem in value._elements]\n        if isinstance(value, JSObject):\n            return {k: self._to_python(v) for k, v in value._properties.items()}",
-  "        if isinstance(value, JSObject):\n            return {k: self._to_python(v) for k, v in value._properties.items()}\n        if isinstance(value, JSArray):\n            return [self._to_python(elem) for elem in value._elements]",
+M("c11-to-python-array-branch-after-object", ["C11"], CX,
+  "        if isinstance(value, JSArray):\n            path = [] if _path is None else _path\n            self._enter_container(path, value)\n            try:\n                return [self._to_python(elem, path) for elem in value._elements]\n            finally:\n                path.pop()\n        if isinstance(value, JSObject):\n            path = [] if _path is None else _path\n            self._enter_container(path, value)\n            try:\n                return {\n                    k: self._to_python(v, path) for k, v in value._properties.items()\n                }\n            finally:\n                path.pop()\n",
+  "        if isinstance(value, JSObject):\n            path = [] if _path is None else _path\n            self._enter_container(path, value)\n            try:\n                return {\n                    k: self._to_python(v, path) for k, v in value._properties.items()\n                }\n            finally:\n                path.pop()\n        if isinstance(value, JSArray):\n            path = [] if _path is None else _path\n            self._enter_container(path, value)\n            try:\n                return [self._to_python(elem, path) for elem in value._elements]\n            finally:\n                path.pop()\n",
   [("C11", "C11-R3", "_to_python:dispatch-order")])
 M("c11-args-reversed", ["C11"], VM,
   "        args = []\n        for _ in range(arg_count):\n            args.insert(0, self.stack.pop())\n        callee = self.stack.pop()\n\n        if isinstance(callee, JSFunction):",
@@ -318,7 +318,27 @@ M("c17-subarray-drops-offset", ["C17"], VM,
 M("c18-new-unguarded-int", ["C18", "C04"], VM,
   "        def valueOf(*args):\n            return n\n", "        def valueOf(*args):\n            return n\n\n        def toInteger(*args):\n            return int(n)\n",
   [], note="a new native that is not registered in the method table is not script-reachable: the analysis correctly ignores it (twin-like)")
-M("c19-loads-default", ["C19"], CX, "py_value = json.loads(text)", "py_value = json.loads(text, strict=False)", [], note="already a known finding (no parse_constant); stays known")
+M("c19-loads-default", ["C19"], CX, "py_value = json.loads(text, parse_constant=reject_constant)", "py_value = json.loads(text)", [("C19", "C19-R1", "json.loads")])
+M("c19-stringify-host-float-spelling", ["C19"], CX, "                    return to_string(v)\n                if isinstance(v, str):\n                    return json.dumps(v, ensure_ascii=False)", "                    return repr(v)\n                if isinstance(v, str):\n                    return json.dumps(v, ensure_ascii=False)", [("C19", "C19-R1", "number-branch")])
+M("c19-stringify-ascii-escapes", ["C19"], CX, "                    return json.dumps(v, ensure_ascii=False)", "                    return json.dumps(v)", [("C19", "C19-R1", "ensure_ascii")])
+M("c19-functions-not-omitted", ["C19"], CX, "                    or isinstance(v, (JSFunction, JSCallableObject))\n", "", [("C19", "C19-R5", "object-omission")])
+M("c19-guard-pop-not-in-finally", ["C19", "C02"], CX,
+  "                enter(v)\n                try:\n                    parts = []\n                    for k, val in v._properties.items():\n                        text = serialize(val)\n                        # properties without a JSON form are left out\n                        if text is not None:\n                            parts.append(json.dumps(k, ensure_ascii=False) + \":\" + text)\n                finally:\n                    path.pop()\n",
+  "                parts = []\n                for k, val in v._properties.items():\n                    text = serialize(val)\n                    # properties without a JSON form are left out\n                    if text is not None:\n                        parts.append(json.dumps(k, ensure_ascii=False) + \":\" + text)\n",
+  [("C19", "C19-R4$", "self-recursion"), ("C02", "C02-R3b", "serialize:self-recursion")])
+T("t-to-integer-inlined", ["C04", "C16"], VM,
+  "            idx = to_integer(args[0]) if args else 0\n            if 0 <= idx < len(s):\n                return s[idx]\n            return \"\"",
+  "            n_ = to_number(args[0]) if args else 0\n            if n_ != n_ or math.isinf(n_):\n                return \"\" if n_ == n_ else s[:1]\n            idx = int(n_)\n            if 0 <= idx < len(s):\n                return s[idx]\n            return \"\"")
+M("c16-charat-raw-int", ["C04", "C16"], VM,
+  "            idx = to_integer(args[0]) if args else 0\n            if 0 <= idx < len(s):\n                return s[idx]\n            return \"\"",
+  "            idx = int(to_number(args[0])) if args else 0\n            if 0 <= idx < len(s):\n                return s[idx]\n            return \"\"",
+  [("C04", "C04-R2", "charAt"), ("C16", "C16-R2", "charAt")])
+M("c18-floor-unguarded", ["C04", "C18"], CX,
+  "            if x != x or math.isinf(x):\n                return x\n            return math.floor(x)\n", "            return math.floor(x)\n",
+  [("C04", "C04-R2", "floor_fn"), ("C18", "C18-R2", "floor_fn")])
+M("c17-array-length-unvalidated", ["C04", "C17"], CX,
+  "                arr = JSArray(_array_length(args[0]))", "                arr = JSArray(int(args[0]))",
+  [("C04", "C04-R2", "array_constructor"), ("C17", "C17-R2", "array_constructor")])
 M("c20-test-ignores-sticky", ["C20"], RR,
   "            if result:\n                if self._global or self._sticky:\n                    self.lastIndex = (\n                        result.index + len(result[0]) if result[0] else result.index\n                    )\n                return True\n            if self._global or self._sticky:\n                self.lastIndex = 0\n            return False",
   "            if result:\n                if self._global:\n                    self.lastIndex = (\n                        result.index + len(result[0]) if result[0] else result.index\n                    )\n                return True\n            if self._global:\n                self.lastIndex = 0\n            return False",
@@ -362,7 +382,7 @@ T("t-new-native-guarded", ["C04", "C16"], VM,
   "        def toString(*args):\n            return s\n\n        def at(*args):\n            n = to_number(args[0]) if args else 0\n            if math.isnan(n) or math.isinf(n):\n                return UNDEFINED\n            idx = int(n)\n            if idx < 0:\n                idx += len(s)\n            if 0 <= idx < len(s):\n                return s[idx]\n            return UNDEFINED\n\n        methods = {\n            \"at\": at,\n            \"charAt\": charAt,",
   more=[(VM, "            string_methods = [\n                \"charAt\",", "            string_methods = [\n                \"at\",\n                \"charAt\",", 1)])
 T("t-rename-local-in-to-python", ["C11"], CX,
-  "            return [self._to_python(elem) for elem in value._elements]", "            return [self._to_python(item) for item in value._elements]")
+  "                return [self._to_python(elem, path) for elem in value._elements]", "                return [self._to_python(item, path) for item in value._elements]")
 T("t-literal-getattr", ["C03"], VM, "compiled = getattr(func, \"_compiled\", None)", "compiled = getattr(func, \"_compiled\", None) if hasattr(func, \"_compiled\") else None")
 T("t-module-constant", ["C12", "C15"], VA, "# Singleton instances\nUNDEFINED = JSUndefined()", "MAX_SAFE_INTEGER = 9007199254740991\n_TYPE_NAMES = (\"undefined\", \"object\")\n\n# Singleton instances\nUNDEFINED = JSUndefined()")
 T("t-precedence-renumbered", ["C13", "C06"], PA,
